@@ -66,6 +66,16 @@ def run(res, replay=None):
         # a renaming onto the same name set must be a bijection applied consistently
         cases.append({'spec': s, 'orders': orders, 'renamings': ren[:1] + ([ren[1]] if sorted(pops) != pops else []),
                       'drop_unsampled': True})
+    # designed: demographic EVENTS that name populations (a split, single changes) under names that contain one another
+    ev_spec = {'n_items': [['a', 1], ['b', 2], ['c', 1]], 'model': {'kind': 'kingman'},
+               'pop_sizes': {'a': {'0.0': 1.0}, 'b': {'0.0': 2.0}, 'c': {'0.0': 0.5}},
+               'migration_rates': {'a>b': {'0.0': 0.5}, 'b>a': {'0.0': 0.25}, 'a>c': {'0.0': 0.8}, 'c>a': {'0.0': 0.3}, 'b>c': {'0.0': 0.2}, 'c>b': {'0.0': 0.6}},
+               'events': [{'type': 'PopulationSplit', 'time': 0.75, 'derived': 'b', 'ancestral': 'a', 'multiplier': 50},
+                          {'type': 'PopSizeChange', 'pop': 'c', 'time': 1.5, 'size': 2.0},
+                          {'type': 'MigrationRateChange', 'source': 'c', 'dest': 'a', 'time': 2.0, 'rate': 1.0}],
+               'end_time': 4.0}
+    cases.append({'spec': ev_spec, 'orders': [], 'renamings': [{'a': 'A', 'b': 'AB', 'c': 'ABC'}, {'a': 'pop', 'b': 'pop_1', 'c': 'p'}],
+                  'drop_unsampled': False})
     for hs in seeds:
         orc.run_oracle(res, 'naming', cases, hashseeds=None if hs == '0' else [hs] * len(cases), chunk=1)
     # exact correspondence of state spaces / rewards on the unsorted configurations
